@@ -832,6 +832,10 @@ def local_bytes(facts, b, l, depth=0):
                 if cb is None:
                     return None
                 r = _ret_bytes(facts, cb, depth + 1)
+            elif c and c.get('local') and c['path'] in facts.bodies and \
+                    facts.bodies[c['path']].locals[0]['s'] in ('u8', '&[u8]', "&'static [u8]", "&'static str", '&str'):
+                # a crate-local function returning a byte / byte string: the constants it can return
+                r = _ret_bytes(facts, facts.bodies[c['path']], depth + 1)
             else:
                 return None
         if r is None:
